@@ -339,6 +339,29 @@ def positional(ctx):
                   "the '*' slice starts at %s, which counts kinds %s: with keyword-only parameters present, leading surplus positionals are cut off" % (unparse(v.slice.lower), cnt))
         conds = g.conditions_at(g.nodes_of(a))
         ctx.check(any(implied([(t, pol)], "%s is None" % vn, False) for (_, t, pol) in conds for vn in varargs_names), a, "'*' is present iff the function has a *args parameter")
+        # the count must be taken when the measured lists have their final content
+        # (after the classification loop and after the bound-method prepend, which also prepends to args)
+        def_stmts, lists = [], set()
+
+        def collect(e, depth=3):
+            for nm in [x for x in ast.walk(e) if isinstance(x, ast.Name)]:
+                if nm.id in sh.list_domain:
+                    lists.add(nm.id)
+                elif depth > 0:
+                    d_ = [x for x in nodes_of_type(f, ast.Assign) if nm.id in stores_to(x) and not isinstance(x.value, ast.Constant)]
+                    if len(d_) == 1:
+                        def_stmts.append(d_[0])
+                        collect(d_[0].value, depth - 1)
+        collect(v.slice.lower)
+        if not def_stmts:
+            def_stmts = [a]
+        for L_ in sorted(lists):
+            muts = [x for x in nodes_of_type(f, ast.Assign) if L_ in stores_to(x) and not (isinstance(x.value, ast.List) and not x.value.elts)]
+            muts += [enclosing_stmt(c_) for c_ in calls_in(f) if call_attr(c_) in ("append", "insert", "extend") and dotted(c_.func.value) == L_]
+            late = [m_ for m_ in muts for d_ in def_stmts if g.path_exists(g.nodes_of(d_), g.nodes_of(m_))]
+            ctx.check(not late, def_stmts[0], "the count of positional parameters is taken after %s has its final content" % L_,
+                      "the count %s is computed before %s is modified (%s): for bound methods the instance is prepended afterwards, so '*' starts one element too early" % (
+                          unparse(def_stmts[0], 60), L_, unparse(late[0], 50) if late else ""))
 
 
 def kw(ctx):
